@@ -70,6 +70,9 @@ type vqHist struct {
 	sawDecrease, sawIncrease bool
 	protocolBroken           bool // Release without a holder was issued: property premises do not hold
 	rr                       map[int64]map[int64]int
+	// starvation bound: releases a user has seen while waiting unserved vs. users ahead of it when it queued
+	sawAdjust    bool
+	budget, seen map[int64]int
 }
 
 func (h *vqHist) pendingOf(tok int64) int {
@@ -93,7 +96,7 @@ func (h *vqHist) pendingIDs() []int64 {
 }
 
 func vqRunHistory(max0 int64, gen func(h *vqHist, step int) *vqOp) *vqHist {
-	h := &vqHist{max0: max0, max: max0, fails: map[string]bool{}, kinds: map[string]bool{}, rr: map[int64]map[int64]int{}}
+	h := &vqHist{max0: max0, max: max0, fails: map[string]bool{}, kinds: map[string]bool{}, rr: map[int64]map[int64]int{}, budget: map[int64]int{}, seen: map[int64]int{}}
 	synctest.Run(func() {
 		q := NewQueue(max0)
 		var mu sync.Mutex
@@ -167,6 +170,7 @@ func vqRunHistory(max0 int64, gen func(h *vqHist, step int) *vqOp) *vqHist {
 				cancels[op.arg]()
 				q.Release()
 			case 'J':
+				h.sawAdjust = true
 				if op.arg < h.active {
 					h.sawDecrease = true
 					h.kinds["capacity_below_active"] = true
@@ -302,6 +306,35 @@ func vqRunHistory(max0 int64, gen func(h *vqHist, step int) *vqOp) *vqHist {
 					}
 				} else {
 					delete(h.rr, b)
+				}
+			}
+			// round-robin fairness as a bound (constant capacity): a user that keeps waiting unserved sees at
+			// most as many releases as there were users ahead of it when it queued / was last served
+			if op.kind == 'A' {
+				tokens[op.arg] = true // a user seen for the first time in this step
+			}
+			for b := range tokens {
+				switch {
+				case h.pendingOf(b) == 0:
+					delete(h.budget, b)
+					delete(h.seen, b)
+				case pendBefore[b] == 0 || grantsBy[b] > 0:
+					ahead := 0
+					for _, u := range users {
+						if u.Token == "u"+strconv.FormatInt(b, 10) {
+							break
+						}
+						ahead++
+					}
+					h.budget[b], h.seen[b] = ahead, 0
+				case op.kind == 'R' || op.kind == 'X':
+					h.seen[b]++
+					if !h.sawAdjust && h.seen[b] > h.budget[b] {
+						h.fails["queue_starved_past_bound"] = true
+					}
+					if h.seen[b] == h.budget[b] && h.budget[b] >= 2 {
+						h.kinds["waited_full_round"] = true
+					}
 				}
 			}
 			if nGrants > 0 && (op.kind == 'R' || op.kind == 'X') {
